@@ -24,6 +24,15 @@ func init() {
 	})
 }
 
+const zeroValueSGD = "zero value of the SGD struct"
+
+func sgdOf(lr lrSpec) *optimizers.SGD {
+	if lr.name == zeroValueSGD {
+		return new(optimizers.SGD)
+	}
+	return optimizers.NewSGD(lr.conf)
+}
+
 type lrSpec struct {
 	name string
 	conf *optimizers.SGDConfig
@@ -37,13 +46,15 @@ var c17LRs = []lrSpec{
 	{"1e-200", &optimizers.SGDConfig{LearningRate: 1e-200}, 1e-200}, {"1e150", &optimizers.SGDConfig{LearningRate: 1e150}, 1e150},
 	{"1e-155", &optimizers.SGDConfig{LearningRate: 1e-155}, 1e-155},
 	{"0.01 (the default, given explicitly)", &optimizers.SGDConfig{LearningRate: 0.01}, 0.01}, {"1", &optimizers.SGDConfig{LearningRate: 1}, 1},
+	{zeroValueSGD, nil, 0},
+	{"5", &optimizers.SGDConfig{LearningRate: 5}, 5}, {"-7", &optimizers.SGDConfig{LearningRate: -7}, -7}, {"3", &optimizers.SGDConfig{LearningRate: 3}, 3},
 }
 
 func runC17(c *fw.Ctx) {
 	deeperBounds(!c.Quick())
 	for _, shape := range Shapes(0, c.Pick(4, 6), 3) {
 		for _, lr := range c17LRs {
-			for src := 0; src < 6; src++ {
+			for src := 0; src < 9; src++ {
 				shape, lr, src := shape, lr, src
 				c.Case(func(k *fw.K) { c17Case(k, shape, lr, src) })
 			}
@@ -57,6 +68,14 @@ func runC17(c *fw.Ctx) {
 	}
 	for i := 0; i < c.Pick(400, 8000); i++ {
 		c.Case(func(k *fw.K) { c17SharedGradient(k) })
+	}
+	// ONE optimizer steps a parameter of every shape of a group whose shapes collide under ad-hoc cache keys (digits run
+	// together, equal element counts, shared prefixes), in both orders
+	for gi, group := range CollidingShapes {
+		for rev := 0; rev < 2; rev++ {
+			gi, group, rev := gi, group, rev
+			c.Case(func(k *fw.K) { c17Colliding(k, gi, group, rev == 1) })
+		}
 	}
 	huge := [][]int{{100, 700}, {70001}, {33, 500}, {4097, 4}, {9, 90, 90}, {129, 128}}
 	if c.Quick() {
@@ -98,6 +117,40 @@ func c17Weight(k *fw.K, shape []int, src int) (w tensor.Tensor, what string, err
 	}
 	defer func() { what += prov }()
 	switch src {
+	case 8: // the parameter is the LOWER-RANK operand of a product whose other operand only has extra leading dimensions of size 1
+		// (w:[3] times x:[1,1,3]): nothing is expanded, the gradient has the parameter's own shape
+		cs := append([]int{1}, shape...)
+		if k.Rng.Intn(2) == 0 {
+			cs = append([]int{1}, cs...)
+		}
+		cv := Shuffled(k.Rng, Unique(k.Rng, cs, 0.5, 2))
+		y, e := w.Mul(rt.MustLeaf(cv, false))
+		if e != nil {
+			return nil, "", e
+		}
+		return w, "gradient through a product with an operand that has extra leading dimensions of size 1", tensor.BackPropagate(y)
+	case 7: // the gradient was produced by the Scale rule with a whole factor (y = (w*3) . c): a chain of scalings that the step extends
+		cv := Shuffled(k.Rng, Unique(k.Rng, shape, 0.1, 0.9))
+		for i := range cv.Data {
+			cv.Data[i] += 1.0 / 3
+		}
+		y, e := w.Scale([]float64{3, 5, 7, -3, 6}[k.Rng.Intn(5)]).Mul(rt.MustLeaf(cv, false))
+		if e != nil {
+			return nil, "", e
+		}
+		return w, "gradient produced by the Scale rule with a whole factor", tensor.BackPropagate(y)
+	case 6: // a gradient holding +Inf, -Inf or NaN in some elements (a diverged step): the update is still w - lr*g element by element
+		cv := Shuffled(k.Rng, Unique(k.Rng, shape, 0.5, 2))
+		for i := range cv.Data {
+			if i == 0 || k.Rng.Intn(3) == 0 {
+				cv.Data[i] = []float64{math.Inf(1), math.Inf(-1), math.NaN()}[k.Rng.Intn(3)]
+			}
+		}
+		y, e := w.Mul(rt.MustLeaf(cv, false))
+		if e != nil {
+			return nil, "", e
+		}
+		return w, "gradient with non-finite elements", tensor.BackPropagate(y)
 	case 5: // a gradient that is exactly zero everywhere (all units dead): the step still replaces the tensor and leaves the old one alone
 		y, e := w.Mul(rt.MustLeaf(ref.Zeros(shape), false))
 		if e != nil {
@@ -182,6 +235,10 @@ func c17Case(k *fw.K, shape []int, lr lrSpec, src int) {
 	k.Sample()
 	var opt *optimizers.SGD
 	if p := call(func() {
+		if lr.name == zeroValueSGD {
+			opt = new(optimizers.SGD) // the zero value of the exported struct: a learning rate of 0
+			return
+		}
 		if lr.conf == nil {
 			opt = optimizers.NewSGD(nil)
 			return
@@ -249,7 +306,7 @@ func c17Case(k *fw.K, shape []int, lr lrSpec, src int) {
 		var w tensor.Tensor
 		var what string
 		var err error
-		if p := call(func() { w, what, err = c17Weight(k, shape, (src+round)%6) }); p != nil || err != nil {
+		if p := call(func() { w, what, err = c17Weight(k, shape, (src+round)%9) }); p != nil || err != nil {
 			k.Failf("building a weight with a gradient failed: panic=%v err=%v", p, err)
 			return
 		}
@@ -288,8 +345,7 @@ func c17Case(k *fw.K, shape []int, lr lrSpec, src int) {
 		}
 		for i := range nv.Data {
 			want := wv.Data[i] - lr.lr*gv.Data[i]
-			tol := 4e-16 * (math.Abs(wv.Data[i]) + math.Abs(lr.lr*gv.Data[i]))
-			if math.Abs(nv.Data[i]-want) > tol {
+			if !sgdStepValue(nv.Data[i], wv.Data[i], lr.lr, gv.Data[i]) {
 				k.Failf("Update(lr %s, shape %v, %s): element %d = %v, expected w - lr*g = %v - %v*%v = %v", lr.name, shape, what, i, nv.Data[i], wv.Data[i], lr.lr, gv.Data[i], want)
 				return
 			}
@@ -310,9 +366,66 @@ func c17Case(k *fw.K, shape []int, lr lrSpec, src int) {
 	}
 }
 
+// sgdStepValue: got is w - lr*g as IEEE arithmetic gives it - the product rounded, then the difference rounded, or the
+// difference of the exact product rounded once (a fused multiply-add); anything else (a product formed from other factors,
+// a reassociated chain of scalings) is a different number even when it is only an ulp away.
+func sgdStepValue(got, w, lr, g float64) bool {
+	p := lr * g
+	two := w - p
+	fused := math.FMA(-lr, g, w)
+	same := func(a, b float64) bool { return a == b || (a != a && b != b) }
+	return same(got, two) || same(got, fused)
+}
+
+func c17Colliding(k *fw.K, gi int, group [][]int, reverse bool) {
+	k.Key("colliding/%d/%v", gi, reverse)
+	k.Count("colliding_shape_group_cases", 1)
+	lr := c17LRs[3+k.Rng.Intn(len(c17LRs)-3)]
+	opt := sgdOf(lr)
+	order := append([][]int(nil), group...)
+	if reverse {
+		for i, j := 0, len(order)-1; i < j; i, j = i+1, j-1 {
+			order[i], order[j] = order[j], order[i]
+		}
+	}
+	k.Case = map[string]any{"shapes": order, "learning_rate": lr.name}
+	for pass := 0; pass < 2; pass++ { // every shape twice: a cache filled by one shape is consulted by the other and again by the first
+		for _, shape := range order {
+			var w tensor.Tensor
+			var what string
+			var err error
+			if p := call(func() { w, what, err = c17Weight(k, shape, []int{0, 1, 2}[k.Rng.Intn(3)]) }); p != nil || err != nil || w.Gradient() == nil {
+				k.Failf("building a weight with a gradient failed: panic=%v err=%v", p, err)
+				return
+			}
+			wv, e1 := rt.Read(w)
+			gv, e2 := rt.Read(w.Gradient())
+			if e1 != nil || e2 != nil {
+				k.Failf("weight / gradient unreadable (%v %v)", e1, e2)
+				return
+			}
+			if p := call(func() { err = opt.Update(&w) }); p != nil || err != nil || w == nil {
+				k.Failf("one optimizer stepping shapes %v in turn: Update(lr %s, shape %v, %s): panic=%v err=%v", order, lr.name, shape, what, p, err)
+				return
+			}
+			nv, err := rt.Read(w)
+			if err != nil || !ref.SameShape(nv.Shape, shape) {
+				k.Failf("one optimizer stepping shapes %v in turn: the updated tensor of shape %v is unreadable or has shape %v (%v)", order, shape, nv, err)
+				return
+			}
+			for i := range nv.Data {
+				if !sgdStepValue(nv.Data[i], wv.Data[i], lr.lr, gv.Data[i]) {
+					k.Failf("one optimizer stepping shapes %v in turn: Update(lr %s, shape %v, %s): element %d = %v, expected w - lr*g = %v - %v*%v", order, lr.name, shape, what, i, nv.Data[i], wv.Data[i], lr.lr, gv.Data[i])
+					return
+				}
+			}
+		}
+	}
+}
+
 func c17Invalid(k *fw.K) {
 	lr := c17LRs[k.Rng.Intn(len(c17LRs))]
-	opt := optimizers.NewSGD(lr.conf)
+	opt := sgdOf(lr)
 	shape := RandShape(k.Rng, 0, 3, 3)
 	kind := k.Rng.Intn(5)
 	names := []string{"nil pointer", "pointer to nil", "tracked tensor without gradient", "untracked tensor", "tensor whose context was reset after back-propagation"}
